@@ -281,6 +281,10 @@ def call_builtin(ex, st, name, args, kwargs, node):
             x, y = as_int(args[0]), as_int(args[1])
             return VInt(z3.If((x <= y) if name == "min" else (x >= y), x, y))
         raise Unsupported(f"{name} call shape")
+    if name == "reversed":
+        v = _seq_of(ex, st, args[0])
+        j = z3.Int("rv%j")
+        return VSeq([z3.Lambda([j], a[v.ln - 1 - j]) for a in v.comps], v.ln, v.et, v.kind)
     if name == "sum":
         return seq_sum(ex, st, _seq_of(ex, st, args[0]))
     if name == "sorted":
@@ -321,6 +325,19 @@ def call_builtin(ex, st, name, args, kwargs, node):
         return VInt(r)
     if name == "ceil_":
         return math_model(ex, st, "ceil", args, line)
+    if name in ("undone_table", "undone_hand"):
+        from . import tables
+        t, hand, swaps, n = args[0], as_int(args[1]), args[2], as_int(args[3])
+        if isinstance(swaps, VSeq) and len(swaps.comps) != 2 and z3.is_int_value(z3.simplify(swaps.ln)) \
+                and z3.simplify(swaps.ln).as_long() == 0:
+            return VInt(hand) if name == "undone_hand" else t        # nothing recorded yet
+        if not (isinstance(swaps, VSeq) and len(swaps.comps) == 2):
+            raise Unsupported("undone_*: the swap list must be a list of (bucket, slot) pairs")
+        ex.lib_used.add("undo theory for the cuckoo eviction chain: undone_table/undone_hand defined by unfolding one "
+                        "swap-back per step; only the first n recorded swaps matter (trusted axiom, true by induction)")
+        if name == "undone_hand":
+            return VInt(tables.UH(t.comps[0], hand, swaps.comps[0], swaps.comps[1], n))
+        return VSeq([tables.UC(t.comps[0], hand, swaps.comps[0], swaps.comps[1], n), t.comps[1]], t.ln, t.et, t.kind)
     if name == "same":
         a, b = args
         if isinstance(a, VSeq) and isinstance(b, VSeq) and len(a.comps) == len(b.comps):
@@ -602,7 +619,7 @@ def exec_with(ex, s, st):
 
 
 REAL_BUILTINS = {"f32", "ln", "exp_", "log2_", "pow_", "ceil_", "le_bytes", "be_bytes", "upd", "rem", "allkeys",
-                 "tcount", "tsize", "lcount", "nodup", "same"}
+                 "tcount", "tsize", "lcount", "nodup", "same", "undone_table", "undone_hand"}
 
 
 def call_spec(ex, st, name, args, kwargs):
